@@ -48,7 +48,7 @@ Inductive wpc :=
 | WPut (script : list ev)                 (* events still to be put *)
 | WDead.
 
-Inductive cpc := CGet | CPost (e : ev) | CAlive | CDone.
+Inductive cpc := CGet | CPost (e : ev) | CAlive | CEmpty | CDone.
 
 Record state := {
   queue : list ev;
@@ -195,11 +195,17 @@ Definition consumer_step (c : cfg) (s : state) : state :=
          cp := if stop' || lim then CDone else CGet;
          workers := workers s; sent := sent s; dropped := dropped s |}
   | CAlive =>
-      let leave := forallb is_dead (workers s) &&
-                   (if drain_fix c then match queue s with [] => true | _ => false end else true) in
+      (* `all(not worker.is_alive() ...) and pool.events_queue.empty()`: the liveness test comes first; only if
+         every worker is dead is the queue looked at (second step, CEmpty).  Before the fix: leave at once. *)
+      let next := if forallb is_dead (workers s) then (if drain_fix c then CEmpty else CDone) else CGet in
       {| queue := queue s; emitted := emitted s; ops := ops s; stop := stop s; limit := limit s;
          counter := counter s; cstatus := cstatus s; executed := executed s;
-         cp := if leave then CDone else CGet;
+         cp := next;
+         workers := workers s; sent := sent s; dropped := dropped s |}
+  | CEmpty =>
+      {| queue := queue s; emitted := emitted s; ops := ops s; stop := stop s; limit := limit s;
+         counter := counter s; cstatus := cstatus s; executed := executed s;
+         cp := match queue s with [] => CDone | _ => CGet end;
          workers := workers s; sent := sent s; dropped := dropped s |}
   | CDone => s
   end.
@@ -227,7 +233,7 @@ Definition run (c : cfg) (sched : list label) (s : state) : state := fold_left (
    program point the moved thread is now at (0 for Stop / an unknown worker index) *)
 Definition wcode (w : wpc) : nat :=
   match w with WLoop => 1 | WFetch => 2 | WStart _ => 3 | WPut _ => 3 | WCheck _ _ _ _ => 4 | WSend _ _ _ _ => 5 | WDead => 6 end.
-Definition ccode (p : cpc) : nat := match p with CGet => 10 | CPost _ => 11 | CAlive => 12 | CDone => 13 end.
+Definition ccode (p : cpc) : nat := match p with CGet => 10 | CPost _ => 11 | CAlive => 12 | CDone => 13 | CEmpty => 14 end.
 Definition obs (s : state) (l : label) : nat :=
   match l with
   | C => ccode (cp s)
